@@ -422,6 +422,21 @@ def build_streams(rng, tier):
             l = mat_line("decomp", gen_matrix(rng, n, kind))
             kinds[l] = f"decomp n={n} {kind}"
             dec.append(l)
+    # the same kinds at magnitudes far from 1 (entries scaled by 2^-30 .. 2^-70 and 2^+40, and matrices mixing O(1) entries with
+    # tiny ones): the decomposition is linear, so every coefficient — however small — is exact in dyadic arithmetic
+    for n, cnt in ({1: 40, 2: 40, 3: 20} if not thorough else {1: 300, 2: 300, 3: 150, 4: 40}).items():
+        for k in range(cnt):
+            rows = gen_matrix(rng, n, KINDS[k % len(KINDS)])
+            sc = Fraction(2) ** rng.choice([-30, -34, -40, -55, -70, 40])
+            if k % 4 == 3:      # mixed magnitudes: one O(1) Pauli matrix plus a tiny matrix
+                big = pauli_entries("".join(rng.choice(_LET) for _ in range(n)))
+                sc = Fraction(2) ** rng.choice([-30, -34, -38])
+                rows = [[(big[i][j][0] + rows[i][j][0] * sc, big[i][j][1] + rows[i][j][1] * sc) for j in range(2 ** n)] for i in range(2 ** n)]
+                if any(Fraction(float(x)) != x for row in rows for e in row for x in e):
+                    continue                                   # not representable as doubles
+            else:
+                rows = [[(a * sc, b * sc) for a, b in row] for row in rows]
+            l = mat_line("decomp", rows); kinds[l] = f"decomp n={n} scaled"; dec.append(l)
     # every single Pauli matrix, n <= 2 (3 in thorough), and every matrix unit n <= 2
     for n in range(1, 4 if thorough else 3):
         for s in all_strings(n):
